@@ -188,11 +188,8 @@ class DataflowRules:
         base = p["base"]
         if p["attr"] in ("data", "values", "attrs", "encoding", "name"):
             self.write_through(fr, node, base, p["target_node"], f".{p['attr']} =", container=True)
-        if p["attr"] == "attrs" and base.kind == "ds":
-            v = p["value"]
-            if v.origins and any(o[0] == "param" for o in v.origins):
-                self.add("ALIAS/attrs-dict-shared", False, fr, node, norm(node)[:80],
-                         "the input's attribute dictionary object is adopted (not copied): later writes to the grid's attrs change the caller's dataset")
+        # NOTE: `ds.attrs = other.attrs` is not an alias: xarray's attrs setter stores dict(value) (checked once
+        # against the installed xarray; recorded as a trusted fact in the evidence).
 
     def write_through(self, fr, node, base: AV, tn, how, container=False, val=None, key=None):
         org = base.origins or frozenset()
